@@ -174,6 +174,17 @@ def bank_histories(mon, spec):
             audit_modes.append('mon')
         if 'hyp' in modes:
             audit_modes.append('hyp')
+        # registers of a mode this configuration does not implement, named explicitly (what SRS #mon / a debugger does; the
+        # access itself is UNPREDICTABLE and its result ignored): it must not disturb the instances of other configurations
+        # that follow in this process
+        for m_ in ('mon', 'hyp'):
+            if m_ not in modes and rng.random() < 0.5:
+                for n_ in (13, 14):
+                    try:
+                        r.get_rmode(n_, MODE_BITS[m_])
+                    except Exception:
+                        pass
+                mon.bump('reads_naming_an_unimplemented_mode')
         cur = rng.choice(modes)
         r.cpsr.value = MODE_BITS[cur] | (rng.getrandbits(1) << 5 if False else 0)
         model = {}
